@@ -90,7 +90,8 @@ class C14(PropertyCheck):
         "quick": "resized_array_2d_from: every (H,W) in 1..5 x 1..5 to every (H',W') in 1..7 x 1..7 "
                  "(all 16 parity combinations); Mask2D/Array2D.resized_from there-and-back: every (H,W) in "
                  "1..4^2 to every (H',W') in 1..6^2 with both mask pad values; pad/trim: every shape in "
-                 "1..5^2 with every odd kernel in {1,3,5,7}^2; zoom: every mask of every shape with H*W<=8",
+                 "1..5^2 with every odd kernel in {1,3,5,7}^2; zoom: every mask of every shape with H*W<=8 "
+                 "(successive apply_mask chains are enumerated over shape x kernel x relation x length, masks seeded)",
         "thorough": "resized_array_2d_from: every (H,W) in 1..8^2 to every (H',W') in 1..10^2; "
                     "Mask2D/Array2D.resized_from there-and-back: every (H,W) in 1..6^2 to every (H',W') "
                     "in 1..8^2; pad/trim: every shape in 1..7^2 with every odd kernel in {1,...,9}^2; "
@@ -118,6 +119,8 @@ class C14(PropertyCheck):
         "autoarray/dataset/imaging/dataset.py:Imaging.__init__",
         "autoarray/dataset/imaging/dataset.py:Imaging.apply_mask",
         "autoarray/dataset/imaging/dataset.py:Imaging.grids",
+        "autoarray/mask/abstract_mask.py:Mask.is_all_false",
+        "autoarray/mask/abstract_mask.py:Mask.pixels_in_mask",
         "autoarray/dataset/grids.py:GridsDataset.uniform",
         "autoarray/structures/grids/uniform_2d.py:Grid2D.from_mask",
         "autoarray/structures/grids/grid_2d_util.py:grid_2d_slim_via_mask_from",
@@ -223,6 +226,20 @@ class C14(PropertyCheck):
             margin = rng.choice((0, 0, 1, 2))
             m, mk = gen.random_mask(rng, h, w, margin=margin if min(h, w) > 2 * margin else 0)
             yield self._apply_mask_case(rng, m, kh, kw, f"apply_mask_random_{mk}")
+        # 6b. successive apply_mask calls: every later mask is applied to the retained unmasked dataset
+        rel_kinds = ("superset", "subset", "disjoint", "shifted", "random", "all_false_first")
+        chain_shapes = [(3, 3), (3, 4), (4, 5)] if quick else [(3, 3), (3, 4), (4, 3), (4, 5), (5, 4), (5, 6)]
+        chain_kers = [(1, 1), (3, 3), (1, 3), (3, 5)] if quick else [(1, 1), (3, 3), (1, 3), (3, 1), (3, 5), (5, 3), (5, 5)]
+        for (h, w), (kh, kw), rel, nsteps in itertools.product(chain_shapes, chain_kers, rel_kinds, (2, 3)):
+            margin = rng.choice((0, 0, 1))
+            yield self._apply_mask_chain_case(rng, h, w, kh, kw, rel, nsteps,
+                                              margin if min(h, w) > 2 * margin else 0)
+        for _ in range(80 if quick else 800):
+            h, w = rng.randint(2, 8), rng.randint(2, 8)
+            kh, kw = rng.choice((1, 3, 5)), rng.choice((1, 3, 5))
+            margin = rng.choice((0, 0, 1, 2))
+            yield self._apply_mask_chain_case(rng, h, w, kh, kw, rng.choice(rel_kinds), rng.choice((2, 3, 4)),
+                                              margin if min(h, w) > 2 * margin else 0)
         # 7. zoom: exhaustive small masks (all shapes, square or not), then larger non-square ones
         cells = 8 if quick else 12
         for (h, w) in gen.shapes_upto(cells):
@@ -240,6 +257,54 @@ class C14(PropertyCheck):
     def _apply_mask_case(self, rng, m, kh, kw, tag):
         h, w = len(m), len(m[0])
         return {"tag": tag, "kind": "apply_mask", "mask": mask_json(m), **_geom_case(rng),
+                "data": qlist(_values(rng, h * w)),
+                "noise": qlist([abs(v) for v in _values(rng, h * w, signed=False)]),
+                "kernel": [kh, kw]}
+
+    @staticmethod
+    def _related_mask(rng, a, rel, margin):
+        """a mask related to `a` (True = masked): its unmasked set is a superset / subset / disjoint /
+        shifted copy of a's, or independent."""
+        h, w = len(a), len(a[0])
+        cells = [(y, x) for y in range(h) for x in range(w)]
+        unm = [(y, x) for y, x in cells if not a[y][x]]
+        msk = [(y, x) for y, x in cells if a[y][x]]
+        b = [row[:] for row in a]
+        if rel == "superset" and msk:
+            for y, x in rng.sample(msk, rng.randint(1, min(3, len(msk)))):
+                b[y][x] = False
+            return b
+        if rel == "subset" and len(unm) > 1:
+            for y, x in rng.sample(unm, rng.randint(1, len(unm) - 1)):
+                b[y][x] = True
+            return b
+        if rel == "disjoint" and msk:
+            b = [[True] * w for _ in range(h)]
+            for y, x in rng.sample(msk, rng.randint(1, min(4, len(msk)))):
+                b[y][x] = False
+            return b
+        if rel == "shifted":
+            dy, dx = rng.choice(((0, 1), (1, 0), (0, -1), (-1, 0), (1, 1), (-1, 1)))
+            b = [[True] * w for _ in range(h)]
+            for y, x in unm:
+                if 0 <= y + dy < h and 0 <= x + dx < w:
+                    b[y + dy][x + dx] = False
+            if any(not v for r in b for v in r):
+                return b
+        return gen.random_mask(rng, h, w, margin=margin)[0]
+
+    def _apply_mask_chain_case(self, rng, h, w, kh, kw, rel, nsteps, margin):
+        if rel == "all_false_first":
+            masks = [gen.full(h, w, False)]
+        else:
+            masks = [gen.random_mask(rng, h, w, margin=margin)[0]]
+        while len(masks) < nsteps:
+            r = rel if rel != "all_false_first" else rng.choice(("random", "subset"))
+            if len(masks) >= 2:
+                r = rng.choice(("superset", "subset", "disjoint", "shifted", "random"))
+            masks.append(self._related_mask(rng, masks[-1], r, margin))
+        return {"tag": f"apply_mask_chain_{rel}", "kind": "apply_mask_chain", "h": h, "w": w,
+                "masks": [mask_json(m) for m in masks], **_geom_case(rng),
                 "data": qlist(_values(rng, h * w)),
                 "noise": qlist([abs(v) for v in _values(rng, h * w, signed=False)]),
                 "kernel": [kh, kw]}
@@ -269,6 +334,13 @@ class C14(PropertyCheck):
                 "slim": qlist(np.asarray(arr.slim.array).ravel()),
                 "store_native": bool(arr.store_native),
                 "grid": [qlist(p) for p in grid]}
+
+    def _ds_obs(self, aa, ds, h, w):
+        dobs = self._arr_obs(aa, ds.data)
+        nobs = self._arr_obs(aa, ds.noise_map)
+        return {"padded": tuple(ds.data.shape_native) != (h, w), "data": dobs, "noise": nobs,
+                "grid_uniform": [qlist(p) for p in np.asarray(ds.grids.uniform.array).reshape(-1, 2)],
+                "ds_mask": self._mask_obs(ds.mask)}
 
     def _mask2d(self, aa, case):
         sc, og = self._geom(case)
@@ -351,11 +423,25 @@ class C14(PropertyCheck):
             kh, kw = case["kernel"]
             psf = aa.Kernel2D.no_mask(values=np.ones((kh, kw)), pixel_scales=sc)
             ds = aa.Imaging(data=data, noise_map=noise, psf=psf).apply_mask(mask=mask)
-            dobs = self._arr_obs(aa, ds.data)
-            nobs = self._arr_obs(aa, ds.noise_map)
-            return {"padded": tuple(ds.data.shape_native) != (h, w), "data": dobs, "noise": nobs,
-                    "grid_uniform": [qlist(p) for p in np.asarray(ds.grids.uniform.array).reshape(-1, 2)],
-                    "ds_mask": self._mask_obs(ds.mask)}
+            return self._ds_obs(aa, ds, h, w)
+        if kind == "apply_mask_chain":
+            sc, og = self._geom(case)
+            h, w = case["h"], case["w"]
+            data = aa.Array2D.no_mask(
+                values=np.array([float(Fraction(v)) for v in case["data"]]).reshape(h, w),
+                pixel_scales=sc, origin=og)
+            noise = aa.Array2D.no_mask(
+                values=np.array([float(Fraction(v)) for v in case["noise"]]).reshape(h, w),
+                pixel_scales=sc, origin=og)
+            kh, kw = case["kernel"]
+            psf = aa.Kernel2D.no_mask(values=np.ones((kh, kw)), pixel_scales=sc)
+            ds = aa.Imaging(data=data, noise_map=noise, psf=psf)
+            steps = []
+            for mj in case["masks"]:
+                mask = aa.Mask2D(mask=np.array(_bits(mj), dtype=bool), pixel_scales=sc, origin=og)
+                ds = ds.apply_mask(mask=mask)
+                steps.append(self._ds_obs(aa, ds, h, w))
+            return steps
         if kind == "zoom":
             mask = self._mask2d(aa, case)
             h, w = case["mask"]["h"], case["mask"]["w"]
@@ -412,6 +498,9 @@ class C14(PropertyCheck):
         if kind == "apply_mask":
             return [{"op": "c14.apply_mask", "mask": case["mask"], **geom, "data": case["data"],
                      "noise": case["noise"], "kernel": case["kernel"]}]
+        if kind == "apply_mask_chain":
+            return [{"op": "c14.apply_mask_chain", "h": case["h"], "w": case["w"], "masks": case["masks"],
+                     **geom, "data": case["data"], "noise": case["noise"], "kernel": case["kernel"]}]
         if kind == "zoom":
             return [{"op": "c14.zoom", "mask": case["mask"], **geom, "native": case["native"],
                      "buffer": case["buffer"]}]
@@ -433,11 +522,15 @@ class C14(PropertyCheck):
             o = dict(responses[0]["ok"])
             o["scales"], o["origin"], o["all_unmasked"] = case["scales"], case["origin"], True
             return o
-        if kind == "apply_mask":
-            o = responses[0]["ok"]
+        def ds_model(o):
             return {"padded": o["padded"], "data": o["data"], "noise": o["noise"],
                     "grid_uniform": o["data"]["grid"],
                     "ds_mask": {k: o["data"][k] for k in ("mask", "scales", "origin")}}
+
+        if kind == "apply_mask":
+            return ds_model(responses[0]["ok"])
+        if kind == "apply_mask_chain":
+            return [ds_model(o) for o in responses[0]["ok"]]
         return responses[0]["ok"]
 
     def compare(self, case, impl_obs, model_obs, cmp):
@@ -662,6 +755,17 @@ class C14(PropertyCheck):
                 return False, "native array does not hold the values at the unmasked pixels in order"
         return True, ""
 
+    def _oracle_apply_mask_chain(self, case, obs):
+        """after every apply_mask the triples of that mask's unmasked pixels are those of the ORIGINAL
+        unmasked dataset (however many masks were applied before)."""
+        if len(obs) != len(case["masks"]):
+            return False, "missing steps"
+        for i, (mj, o) in enumerate(zip(case["masks"], obs)):
+            ok, detail = self._oracle_apply_mask({**case, "mask": mj}, o)
+            if not ok:
+                return False, f"apply_mask #{i + 1} of {len(case['masks'])} (on a dataset already masked {i} time(s)): {detail}"
+        return True, ""
+
     def _oracle_zoom(self, case, obs):
         mj = case["mask"]
         h, w = mj["h"], mj["w"]
@@ -695,6 +799,8 @@ class C14(PropertyCheck):
             return any(s.get("k") != "pad" or s["kernel"] != [1, 1] for s in case["steps"])
         if kind in ("zoom", "apply_mask"):
             return "0" in case["mask"]["bits"] and "1" in case["mask"]["bits"]
+        if kind == "apply_mask_chain":
+            return len({m["bits"] for m in case["masks"]}) > 1
         return True
 
     def shrink(self, case):
@@ -705,7 +811,20 @@ class C14(PropertyCheck):
             for i, c in enumerate(bits):
                 if c == "0" and bits.count("0") > 1:
                     yield {**case, "mask": {**mj, "bits": bits[:i] + "1" + bits[i + 1:]}}
-        if kind in ("array_chain", "mask_chain", "zoom", "apply_mask", "mask_trim"):
+        if kind == "apply_mask_chain":
+            if len(case["masks"]) > 2:
+                yield {**case, "masks": case["masks"][1:]}
+                yield {**case, "masks": case["masks"][:-1]}
+            if case["kernel"] != [1, 1]:
+                yield {**case, "kernel": [1, 1]}
+            for i, mj in enumerate(case["masks"]):
+                bits = mj["bits"]
+                for k, c in enumerate(bits):
+                    if c == "0" and bits.count("0") > 1:
+                        ms = list(case["masks"])
+                        ms[i] = {**mj, "bits": bits[:k] + "1" + bits[k + 1:]}
+                        yield {**case, "masks": ms}
+        if kind in ("array_chain", "mask_chain", "zoom", "apply_mask", "mask_trim", "apply_mask_chain"):
             if case.get("origin") != ["0", "0"]:
                 yield {**case, "origin": ["0", "0"]}
             if case.get("scales") != ["1", "1"]:
@@ -727,6 +846,7 @@ class C14(PropertyCheck):
             "mask_trim": ["C14.trimmed_array_from_padded"],
             "apply_mask": ["C14.apply_mask_keeps_triples", "C14.auto_padding_iff",
                            "C14.padding_keeps_triples"],
+            "apply_mask_chain": ["C14.successive_apply_mask_eq_last", "C14.apply_mask_keeps_triples"],
             "zoom": ["C14.zoom_contains_unmasked", "C14.extracted_eq_window"],
         }.get(case["kind"], ["C14.*"])
 
